@@ -645,15 +645,18 @@ def evaluate(case, stats=None):
         res = check_form(case, form, text, lines, classes, stats)
         if res and has_break and form in SPLITTING_FORMS:
             # mechanism test: the disagreement is "the library's own line splitting cut a change line at a
-            # non-LF boundary" iff the very same text passes when handed over already split at LF only, and
-            # what was observed is exactly what the library does with the text pre-cut at every Unicode line
-            # boundary (str.splitlines) - same complaints, same lines.
-            as_cut = check_form(case, 'lines', text, lines, classes, None, input_lines=text.splitlines())
-            if (not check_form(case, 'lines', text, lines, classes, None)
-                    and _unformed(as_cut) == _unformed(res)):
-                res = [('text-input-split-at-non-LF-line-boundary',
-                        '[%s] change text containing U+000C/U+0085/U+2028/U+2029 is cut into several lines when the '
-                        'changelog is given as one str/bytes (not when given as lines or a file): %s' % (form, res[0][1]))]
+            # non-LF boundary" iff the result differs from what the very same text gives when handed over
+            # already split at LF only, and is exactly what the library does with the text pre-cut at every
+            # Unicode line boundary (str.splitlines) - same complaints, same lines.  Complaints that the
+            # LF-only form shows too keep their own keys.
+            as_cut = _unformed(check_form(case, 'lines', text, lines, classes, None, input_lines=text.splitlines()))
+            lf_only = _unformed(check_form(case, 'lines', text, lines, classes, None))
+            if _unformed(res) != lf_only and _unformed(res) == as_cut:
+                first = [m for (k, m) in res if (k, m.split('] ', 1)[-1]) not in lf_only][0]
+                res = [(k, m) for (k, m) in res if (k, m.split('] ', 1)[-1]) in lf_only]
+                res.append(('text-input-split-at-non-LF-line-boundary',
+                            '[%s] change text containing U+000C/U+0085/U+2028/U+2029 is cut into several lines when '
+                            'the changelog is given as one str/bytes (not when given as lines or a file): %s' % (form, first)))
         for key, msg in res:
             if key not in found:
                 found[key] = [msg, [form]]
